@@ -116,7 +116,9 @@ pub fn step_obligations(
     let kind = err_kind(res);
     let ok = kind == 0;
     let size = e.size();
-    let nid_from_pk = sym::eq32(&NodeId::from(e.public_key()).raw(), &after.node_id);
+    let pk_now = e.public_key();
+    let carries_signer_key = pk_now.0 == signer.id;
+    let nid_from_pk = sym::eq32(&NodeId::from(pk_now).raw(), &after.node_id);
     let pairs_model = pairs_are(e, want);
     let pairs_pre = pairs_are(e, pre);
     let unchanged = same_snap(before, &after) && pairs_pre;
@@ -131,13 +133,14 @@ pub fn step_obligations(
     vcover!(kind == 3, "Err(SigningError)");
     vcover!(ok && signer.id != before.node_id[0], "re-keyed");
     // ---- C05: Ok => valid record, re-keyed to the signer
-    assert!(!ok || sym::eq32(&after.node_id, &hdigest(&[signer.id])), "C05: after an update the node id is the hash of the signer's public key");
+    assert!(!ok || sym::eq32(&after.node_id, &hdigest(&[signer.id])), "C05,C10: after an update the node id is the hash of the signer's public key");
     // "verifies" = this obligation + `a_verify_iff` (verify() accepts exactly records whose signature
     // is the carried key's MAC over their content), see DESIGN.md 4/C05
     assert!(!ok || sig_is_signers, "C05: after an update the signature is the signer's signature over the new content");
-    assert!(!ok || size <= MAXSZ, "C05: a successfully updated record fits the size limit");
+    assert!(!ok || carries_signer_key, "C05,C08: after an update the record carries the signer's public key (it verifies under the key it carries)");
+    assert!(!ok || size <= MAXSZ, "C05,C09: a successfully updated record fits the size limit");
     // ---- C06: Err => untouched
-    assert!(ok || unchanged, "C06: a failed update leaves seq, node id, signature and pairs unchanged");
+    assert!(ok || unchanged, "C06,C07,C10: a failed update leaves seq, node id, signature and pairs unchanged");
     assert!(ok || size == pre_len, "C06: a failed update leaves the encoding length unchanged");
     // ---- C07
     assert!(!ok || after.seq == want_seq, "C07: a successful update sets the sequence number to exactly the expected value");
@@ -478,7 +481,7 @@ fn build_obligations(r: &Result<Enr<MKey>, Error>, signer: &MKey, seq: u64, want
         let nid_pk = sym::eq32(&NodeId::from(e.public_key()).raw(), &s.node_id);
         assert!(pairs_model, "C08: a built record holds the builder's pairs plus id=v4 and the signer's public key");
         assert!(sig_ok, "C05: a built record carries the signer's signature over its content");
-        assert!(nid, "C05: the node id of a built record is the hash of the signer's public key");
+        assert!(nid, "C05,C10: the node id of a built record is the hash of the signer's public key");
         assert!(nid_pk, "C10: node id equals the id derived from the public-key accessor");
         assert!(s.seq == seq, "C07: a built record has exactly the requested sequence number");
         assert!(size == full_len, "C09: size() equals the length of the encoding predicted from the parts");
